@@ -21,6 +21,9 @@ for sid in sorted(i for i in os.listdir(ROOT) if not i.startswith('_')):
             mt = re.search(r'replays/[^/]+/(?:[A-Z0-9_]+\.)?(U\d+_\w+?\.[^ ]+?)\.json', l)
             if mt and len(obl) < 2:
                 obl.append(mt.group(1).replace('_', ' ', 0))
+            mb = re.search(r'replays/[^/]+/[A-Z0-9]+\.(bounded\.\w+)\.json', l)
+            if mb and len(obl) < 2:
+                obl.append(mb.group(1) + ' (bounded stand-in, not a proof obligation)')
     rows.append((sid, tgt, ', '.join(f.replace('src/', '') for f in files), verdict, ', '.join(by), '; '.join(obl)[:150], what))
 _buf = io.StringIO()
 _out = sys.stdout
